@@ -224,7 +224,12 @@ def level_selector(draw, labels_at_depth, innermost, n):
     kinds = ['all', 'label', 'label', 'list', 'list', 'slice']
     if innermost:
         kinds.append('bool')
+        kinds.append('rslice')
     k = draw(st.sampled_from(kinds))
+    if k == 'rslice':
+        # a descending slice with an open stop at the innermost depth: from a label (or the last one) down to the first
+        # of each visited parent (an explicit stop of a descending label slice is a listed C04 finding)
+        return {'k': 'rslice', 'a': draw(st.one_of(st.none(), st.sampled_from(pool)))}
     if k == 'all':
         return {'k': 'all'}
     if k == 'label':
@@ -242,7 +247,8 @@ def level_selector(draw, labels_at_depth, innermost, n):
 @st.composite
 def hloc_cases(draw):
     n = draw(st.integers(2, 12))
-    labels = draw(gen.tree_labels_n(n))
+    # depth 4 one time in four (offsets accumulate over three levels of parents there)
+    labels = draw(gen.tree_labels_n(n, depth=draw(st.sampled_from([2, 3, 4, 3]))))
     depth = len(labels[0])
     mode = draw(st.sampled_from(['hloc', 'hloc', 'hloc', 'tuple', 'tuples', 'mask', 'iloc', 'partial']))
     case = {'labels': labels, 'mode': mode, 'target': draw(st.sampled_from(['index', 'series', 'frame', 'frame_cols']))}
@@ -268,7 +274,7 @@ def model_hloc(labels, sels):
     """Positions selected by per-depth selectors, in the statement's order."""
     depth = len(labels[0])
     sels = list(sels) + [{'k': 'all'}] * (depth - len(sels))
-    multiple = any(s['k'] in ('list', 'slice', 'all', 'bool') for s in sels)
+    multiple = any(s['k'] in ('list', 'slice', 'all', 'bool', 'rslice') for s in sels)
 
     def rec(items, d):
         # items: list of (position, tuple) sharing the prefix of length d
@@ -301,6 +307,13 @@ def model_hloc(labels, sels):
                     raise Discard('slice-endpoint-absent-in-visited-subtree')
                 ib = keys.index(repr(canon(s['b'])))
             chosen = keys[ia:ib + 1]
+        elif s['k'] == 'rslice':
+            ia = len(keys) - 1
+            if s['a'] is not None:
+                if repr(canon(s['a'])) not in groups:
+                    raise Discard('slice-endpoint-absent-in-visited-subtree')
+                ia = keys.index(repr(canon(s['a'])))
+            chosen = keys[:ia + 1][::-1]
         elif s['k'] == 'bool':
             out = []
             for p, t in items:
@@ -327,6 +340,8 @@ def _real_sel(s):
         return list(s['v'])
     if s['k'] == 'slice':
         return slice(s['a'], s['b'])
+    if s['k'] == 'rslice':
+        return slice(s['a'], None, -1)
     return s['v']
 
 
@@ -425,9 +440,111 @@ def check_hloc(case):
     return {'nt': ragged and mode != 'tuple', 'cls': classes}
 
 
+# ---------------------------------------------------------------------------------------------
+# hierarchies whose innermost indices are auto-integer indices (what Series/Frame.from_concat_items builds from
+# containers without explicit labels): per-level selection must stay inside each member
+
+@st.composite
+def auto_leaf_cases(draw):
+    form = draw(st.sampled_from(['label_int', 'label_slice', 'all_int', 'all_list', 'label_list', 'tuple', 'all_slice']))
+    lens = draw(st.lists(st.integers(1, 4), min_size=2, max_size=4))
+    q = draw(st.integers(0, len(lens) - 1))
+    inb = draw(st.integers(0, 7)) < 7  # keys inside the bounds of every visited member seven times out of eight
+    hi = (min(lens) if form.startswith('all') else lens[q]) - 1
+    top = hi if inb else max(lens) + 1
+    i = draw(st.integers(0, max(top, 0)))
+    j = draw(st.integers(i, max(top, i)))
+    return {'lens': lens, 'form': form, 'q': q, 'i': i, 'j': j, 'open_stop': draw(st.integers(0, 3)) == 3, 'target': draw(st.sampled_from(['index', 'series']))}
+
+
+def check_auto_leaf(case):
+    lens, form, q, i, j = case['lens'], case['form'], case['q'], case['i'], case['j']
+    names = ['m%d' % k for k in range(len(lens))]
+    members = [sf.Series(np.arange(n) + 100 * k) for k, n in enumerate(lens)]
+    s = sf.Series.from_concat_items(zip(names, members))
+    ih = s.index
+    offs = [sum(lens[:k]) for k in range(len(lens))]
+    HLoc = sf.HLoc
+
+    def inside(k, p):
+        return 0 <= p < lens[k]
+    expect_absent = False
+    if form == 'label_int':
+        key, want, scalar = HLoc[names[q], i], [offs[q] + i], True
+        expect_absent = not inside(q, i)
+    elif form == 'tuple':
+        key, want, scalar = (names[q], i), [offs[q] + i], True
+        expect_absent = not inside(q, i)
+    elif form == 'label_slice':
+        stop = None if case['open_stop'] else j
+        key = HLoc[names[q], i:stop]
+        want = [offs[q] + p for p in range(i, lens[q] if stop is None else min(j, lens[q] - 1) + 1)]
+        scalar = False
+        expect_absent = (not inside(q, i)) or (stop is not None and not inside(q, j))
+    elif form == 'label_list':
+        ps = sorted({i, j})
+        key, want, scalar = HLoc[names[q], ps], [offs[q] + p for p in ps], False
+        expect_absent = any(not inside(q, p) for p in ps)
+    elif form == 'all_int':
+        key, want, scalar = HLoc[:, i], [offs[k] + i for k in range(len(lens)) if inside(k, i)], False
+        expect_absent = not want
+    elif form == 'all_list':
+        ps = sorted({i, j})
+        key, scalar = HLoc[:, ps], False
+        want = [offs[k] + p for k in range(len(lens)) for p in ps if inside(k, p)]
+        expect_absent = not want
+    else:
+        stop = None if case['open_stop'] else j
+        key, scalar = HLoc[:, i:stop], False
+        want = [offs[k] + p for k in range(len(lens)) for p in range(i, lens[k] if stop is None else min(j, lens[k] - 1) + 1)]
+        expect_absent = not want
+    what = 'members of lengths %s, key %s' % (lens, short(getattr(key, 'key', key)))
+    r = lib(ih.loc_to_iloc, key)
+
+    def positions(x):
+        if isinstance(x, (int, np.integer)):
+            return [int(x)]
+        if isinstance(x, slice):
+            return list(range(*x.indices(len(ih))))
+        x = np.asarray(x)
+        return np.flatnonzero(x).tolist() if x.dtype == bool else [int(v) for v in x.tolist()]
+    if expect_absent:
+        # positions outside a member are not labels of it: an error, or (for multi-member keys) nothing selected
+        if not isinstance(r, Raised) and positions(r):
+            raise Failure('no-raise', '%s: a position outside the member resolved to %s' % (what, short(r)))
+        return {'nt': False, 'cls': ['auto-leaf:' + form, 'auto-leaf:absent']}
+    if isinstance(r, Raised):
+        raise Failure('raised:%s' % r.cls, '%s raised %r' % (what, r.exc), r.where)
+    got = positions(r)
+    if got != want:
+        raise Failure('positions', '%s -> %s expected %s' % (what, got, want))
+    if case['target'] == 'series':
+        sel = lib(lambda: s[key])
+        if isinstance(sel, Raised):
+            raise Failure('raised:%s' % sel.cls, 'Series[%s] raised %r' % (what, sel.exc), sel.where)
+        vals = [sel] if not isinstance(sel, sf.Series) else sel.values.tolist()
+        if [int(v) for v in vals] != [int(s.values[p]) for p in want]:
+            raise Failure('value', 'Series[%s] -> %s expected rows %s' % (what, short(vals), want))
+    return {'nt': len(want) >= 1, 'cls': ['auto-leaf:' + form]}
+
+
+def tag_auto_leaf(case, f):
+    # the leaf branch for indices without a label map adds the offset to whatever it is given: positions beyond the member
+    # (and slices running past it) are not checked against the member's length
+    lens, form = case['lens'], case['form']
+    top = (min(lens) if form.startswith('all') else lens[case['q']]) - 1
+    beyond = case['i'] > top or (case['j'] > top and form not in ('label_int', 'tuple', 'all_int') and not (form.endswith('slice') and case['open_stop']))
+    if beyond or (form.endswith('slice') and case['open_stop']):
+        if f.kind in ('no-raise', 'positions', 'value') or f.kind.startswith('raised:'):
+            return 'hierarchy-auto-integer-leaf-ignores-member-bounds'
+    return None
+
+
 SUBS = [
     Sub('views', view_cases(), check_views, quick=4800, thorough=32000,
         rule='all views of an IndexHierarchy (after any GO history) describe the model tuple list'),
+    Sub('auto_leaf', auto_leaf_cases(), check_auto_leaf, quick=2000, thorough=16000, tag=tag_auto_leaf,
+        rule='hierarchies with auto-integer innermost indices (from_concat_items): HLoc / tuple keys vs member-bounded positions'),
     Sub('hloc', hloc_cases(), check_hloc, quick=10000, thorough=64000,
         rule='per-level selection vs recursive tuple-list reference; Series/Frame rows by HLoc'),
 ]
